@@ -180,9 +180,10 @@ class DTWSettings:
         return settings
 
     def set_max_dist(self, s1, s2):
-        _, _, ival_fn = innerdistance.inner_dist_fns(self.inner_dist, use_ndim=self.use_ndim)
         if self.use_pruning:
-            self.adj_max_dist = ival_fn(ub_euclidean(s1, s2, inner_dist=self.inner_dist))
+            # Upper bound in the internal representation, without a result/inner_val round trip
+            # (sqrt(x)**2 can be smaller than x and would prune the optimal path when DTW equals ED)
+            self.adj_max_dist = ed._distance_inner(s1, s2, inner_dist=self.inner_dist, use_ndim=self.use_ndim)
 
     def kwargs(self):
         return {
